@@ -11,12 +11,12 @@ CONSTANTS
   Prog <- MC_Prog
   KeyRank <- MC_KeyRank
   Root <- MC_Root
-  CandU <- MC_CandU_life
+  CandU <- MC_CandU_edge6
   AbortSets <- MC_AbortSets_one
-  MaxTicks = 3
+  MaxTicks = 4
   MaxCands = 2
   MaxCandsA = 1
-  MaxAborts = 1
+  MaxAborts = 0
   MaxJumps = 0
   PreNames = {"hub"}
   Export = TRUE
